@@ -254,7 +254,8 @@ def run_c20(tier):
     # ---- configurations
     entries = []
     fam = "scope2" if tier == "quick" else "scope3"
-    r2 = core.run_tlc("MC_Container.tla", "MC_Container_%s.cfg" % fam, timeout=3000)
+    # only the configurations are needed here (initial states): histories of these families belong to C05
+    r2 = core.run_tlc("MC_Container.tla", "MC_Container_%s.cfg" % ("scope2" if tier == "quick" else "scope3c"), timeout=3000)
     seen = {}
     for c in r2.emitted:
         key = json.dumps(c["cfg"], sort_keys=True)
